@@ -422,6 +422,8 @@ fn history_streams() -> Vec<Vec<u8>> {
     v
 }
 
+const HUGE_REFS: [usize; 6] = [255, 256, 1000, 2040, 2041, 4100];
+
 fn run_case(tier: Tier, fam: &str, idx: u64, t: &mut Tally) {
     if fam == "arb" {
         let b = arb_nth(idx);
@@ -435,11 +437,13 @@ fn run_case(tier: Tier, fam: &str, idx: u64, t: &mut Tally) {
     }
     if fam == "lz11huge" {
         // LZ11 streams of 16 MiB and more use the 8-byte header (24-bit size 0, 32-bit size follows)
+        // expansions of 16.0, 16.1, 63, 128.03 (just above 2^27), 128.1 and 257 MiB
+        let refs = HUGE_REFS[idx as usize];
         let mut toks = vec![Token::Lit(0x5A)];
-        for _ in 0..(255 + idx as usize) {
+        for _ in 0..refs {
             toks.push(Token::Ref { len: 65_808, disp: 1 });
         }
-        let total: usize = 1 + (255 + idx as usize) * 65_808;
+        let total: usize = 1 + refs * 65_808;
         let stream = ref_lz::encode(&toks, Kind::Lz11, total, None);
         t.cases += 1;
         t.nontrivial += 1;
@@ -499,7 +503,7 @@ fn families(tier: Tier) -> Vec<Family> {
     let mut f: Vec<Family> = specs(tier).iter().map(|s| Family::new(s.tag.clone(), spec_count(s))).collect();
     f.push(Family::new("arb", arb_count()));
     f.push(Family::new("stored", stored_cases().len() as u64));
-    f.push(Family::new("lz11huge", 2));
+    f.push(Family::new("lz11huge", HUGE_REFS.len() as u64));
     let h = history_streams().len() as u64;
     f.push(Family::new("hist", h * h));
     f
